@@ -84,6 +84,8 @@ func init() {
 		add(fmt.Sprintf("S3 d<=1 static3 (every %d. position; all faults, truncations, pull-only, nested submissions/deliveries, empty/binary/duplicate transactions)", stride),
 			s3Items(scStatic3, 1, seedPositions(scStatic3, 0, 0, stride), alpha, mons, 40))
 		add("S3 d<=1 join3to4 (every 4th position, level 0)", s3Items(scJoin3, 1, seedPositions(scJoin3, 1, 0, 4), devAlphabet(nodesOf(4), 0, 0), mons, 40))
+		add("identical transaction bytes submitted repeatedly at one node and at several nodes (static3): d=0 and d<=1 (every 3rd position, level 0)",
+			append(s3Items(scDups3, 0, nil, nil, mons, 40), s3Items(scDups3, 1, seedPositions(scDups3, 0, 0, 3), devAlphabet(nodesOf(3), 0, 0), mons, 40)...))
 		// transactions accepted by a node that then fast-forwards (a catching-up joiner; a validator restarted empty)
 		{
 			var ffItems []sched.Item
